@@ -14,7 +14,7 @@ PROPS = ("C06",)
 
 
 def plan(tier, seed):
-    return ec.plan_e2e(seed, 6, MIX, 180 if tier == "quick" else 1800)
+    return ec.plan_e2e(seed, 6, MIX, 180 if tier == "quick" else 1800, nwcap=12 if tier == "quick" else 24)
 
 
 def nontrivial(run, I):
